@@ -112,6 +112,18 @@ def parse_mir(text):
     return fns
 
 
+def callees(fn):
+    """names of the functions a MIR body calls (non-cleanup blocks)"""
+    out = []
+    for bb, (stmts, term) in fn.blocks.items():
+        if bb in fn.cleanup:
+            continue
+        c = split_call(term or "")
+        if c:
+            out.append(c[1])
+    return out
+
+
 def find_fn(fns, pattern, sig=None):
     rx = re.compile(pattern)
     hits = [k for k in fns if rx.search(k) and (sig is None or re.search(sig, fns[k].sig))]
